@@ -176,7 +176,7 @@ func (nz *normalizer) sqlToBindvar(node SQLNode) *querypb.BindVariable {
 		var v sqltypes.Value
 		var err error
 		switch node.Type {
-		case StrVal:
+		case StrVal, PgEscapeString:
 			v, err = sqltypes.NewValue(sqltypes.VarBinary, node.Val)
 		case IntVal:
 			v, err = sqltypes.NewValue(sqltypes.Int64, node.Val)
